@@ -1,5 +1,7 @@
 import MtblProofs.TpProofs
 import MtblProofs.TpLive
+import MtblProofs.PoolWriterProofs
+import MtblProofs.PoolSorterProofs
 /-
   C13 — Pooled writers and sorters: same result under every interleaving, no hangs.
   Theorems about the transition system of mtbl/threadpool.c (MtblModel/Tp.lean): they hold for EVERY reachable state,
@@ -80,3 +82,56 @@ example : stepCount (init 2 3 true) Ex.schedOrd = (60, 10) ∧ Phi (init 2 3 tru
     Phi (runSched (init 2 3 true) Ex.schedOrd) = 0 := by decide +kernel
 
 end Tp.C13
+
+/-! ### the pooled writer: same file as without a pool
+
+  `MtblModel/PoolWriter.lean` splits `_mtbl_writer_flush` the way the code does when `w->pool != NULL`: the caller cuts the
+  block and dispatches it (`W.cut`), a worker compresses and the result handler writes the frame, advances offsets and
+  counters and adds the index entry (`W.complete`).  A pooled writer is a writer plus the blocks dispatched and not yet
+  delivered; its steps are `add` (caller) and `deliver` (the handler takes the OLDEST outstanding block: ordered delivery,
+  `C13_order`); `finish` joins first (`C13_complete`, `C14_writer_join_first`).  The caller's part of an add and a
+  completion touch disjoint fields (`addC_complete` — the functional counterpart of `C14_writer_partition`), hence: -/
+namespace Mtbl.C13
+
+/-- **C13, writer clause.**  For EVERY interleaving of adds and in-order deliveries (any configuration whose compressor does
+    not fail, any file position): every add returns what the writer without a pool returns, and the finished file is
+    byte-identical to the file written without a pool. -/
+theorem C13_writer (cfg : WCfg) (hc : CompOK cfg) (pre : Nat) (steps : List PStep) :
+    PW.runCodes { w := W.new cfg pre } steps = ((W.new cfg pre).addAll (addsOf steps)).1 ∧
+    (PW.run { w := W.new cfg pre } steps).finish = Writer.run cfg pre (addsOf steps) :=
+  pooled_writer_file cfg hc pre steps
+
+/-- the same, from any state of a pooled writer: once what is outstanding has been delivered, it is the sequential writer -/
+theorem C13_writer_state (p : PW) (hc : CompOK p.w.cfg) (steps : List PStep) :
+    PW.runCodes p steps = (p.settle.addAll (addsOf steps)).1 ∧
+    (p.run steps).settle = (p.settle.addAll (addsOf steps)).2 := pooled_eq_sequential p hc steps
+
+/-- non-vacuity: 16-byte blocks, four adds (one refused) with the deliveries lagging behind: two blocks are outstanding
+    after the last add -/
+def exSteps : List PStep :=
+  [.add [1] [9, 9, 9, 9, 9, 9, 9, 9], .add [2] [8, 8, 8, 8, 8, 8, 8, 8], .add [1, 5] [7], .add [3] [6, 6, 6, 6, 6, 6, 6, 6, 6],
+   .deliver, .add [4] [5]]
+def exCfg : WCfg := { compression := 0, blockSize := 16, minBlockSize := 16, interval := 2 }
+example : CompOK exCfg := fun raw => ⟨raw, rfl⟩
+example : (PW.run { w := W.new exCfg 0 } exSteps).pending.length = 2 ∧
+    PW.runCodes { w := W.new exCfg 0 } exSteps = [.success, .success, .failure, .success, .success] := by decide +kernel
+
+/-- **C13, sorter clause.**  With a pool the chunk jobs complete in any order, so the `readers` vector the final merger is
+    built from is some permutation `cs'` of the chunks the sorter without a pool holds after its final flush (each chunk
+    once: `C13_complete`; all of them before the merger is built: `C14_sorter_join_first`).  For EVERY such permutation the
+    output is what C06_output states for the sequential order: strictly ascending keys, exactly the keys added, each value
+    a combination of all the values added for its key, each used once. -/
+theorem C13_sorter (c : SCfg) (f : Bytes → Bytes → Bytes → Option Bytes)
+    (hsort : ∀ l, (c.sortFn l).Perm l ∧ Sorted (c.sortFn l)) (hm : c.merge = some f) (hok : ∀ k a b, f k a b ≠ none)
+    (mc : MCfg) (hmm : mc.merge = some f) (hds : mc.dupsort = none) (hF2 : mc.fixF2 = true)
+    (adds : List Entry) (fuel : Nat) (hfuel : adds.length + 1 ≤ fuel) :
+    let r := Sorter.addAll { cfg := c } adds
+    ∃ s1, (if r.2.vec.length > 0 then r.2.flush else (.success, r.2)) = (.success, s1) ∧
+      ∀ cs' : List (List Entry), cs'.Perm s1.chunks →
+        ∃ m, mergerIter mc cs' .iter [] = some m ∧
+          StrictSorted (mergerDrain mc fuel m) ∧
+          (∀ k, (∃ e ∈ mergerDrain mc fuel m, e.key = k) ↔ (∃ e ∈ adds, e.key = k)) ∧
+          ∀ e ∈ mergerDrain mc fuel m, Folded f e.key (valuesOf e.key adds) e.val :=
+  SorterProofs.pooled_sorter_output hsort hm hok mc hmm hds hF2 adds fuel hfuel
+
+end Mtbl.C13
